@@ -11,6 +11,7 @@ import (
 	"regexp"
 	"sort"
 	"strings"
+	"time"
 )
 
 func init() {
@@ -732,7 +733,7 @@ func checkC02(e *Env, r *Report) {
 	r.Coverage["alone_vs_whole_comparisons"] = nNb
 	// (3) the configuration the tool works out by itself: without $DISTRIBUTION the distribution comes from the
 	// host's os-release; the same os-release must give the same run every time (outcome, output, message)
-	if recsD, n, skipped := detectPhase(e); skipped != "" {
+	if recsD, n, skipped := detectPhase(e, r); skipped != "" {
 		r.Assume = append(r.Assume, "host auto-detection not exercised: "+skipped)
 	} else {
 		recs = append(recs, recsD...)
@@ -747,11 +748,26 @@ func checkC02(e *Env, r *Report) {
 	runDirectivesTrace(e, r, recs, "C02")
 }
 
-// detectPhase runs the real prebuild on a minimal source without $DISTRIBUTION under faked os-release files.
-func detectPhase(e *Env) ([]any, int, string) {
+// detectPhase: the os-release universe of MC_Detect replayed through the real prebuild binary, on a minimal
+// source, without (or with) $DISTRIBUTION, in a private mount namespace where the generated file is
+// /etc/os-release. Every run of one input must end the same (C02); what it ends with is compared with the
+// model's distribution (a disagreement is drift of the model, not a verdict).
+var reUnsupported = regexp.MustCompile(`(\S*) is not a supported distribution`)
+
+func detectPhase(e *Env, r *Report) ([]any, int, string) {
 	if out, err := execCmd("unshare", "-m", "sh", "-c", "mount --bind /etc/hostname /etc/hostname"); err != nil {
 		return nil, 0, "no private mount namespace in this sandbox (" + strings.TrimSpace(tail(out, 120)) + ")"
 	}
+	res, err := e.RunTLC(TLCOpts{Module: "MC_Detect", Workers: 1, Timeout: 5 * time.Minute})
+	if err != nil {
+		return nil, 0, err.Error()
+	}
+	r.AddTLC(res)
+	if !res.Healthy() {
+		r.Drift = append(r.Drift, "MC_Detect (design check of the distribution detection) did not pass")
+		return nil, 0, "MC_Detect did not complete"
+	}
+	r.Coverage["autodetect_leads"] = len(res.PrintsWithPrefix("LEADD"))
 	// every distribution leaves its mark on the output: its ignore list drops one profile of its own
 	perDist := map[string]string{}
 	for _, d := range Dists {
@@ -763,55 +779,86 @@ func detectPhase(e *Env) ([]any, int, string) {
 	if err != nil {
 		return nil, 0, err.Error()
 	}
-	type osr struct {
-		name, text string
-		runs       int
+	type beh struct {
+		ID     string   `json:"id"`
+		Like   []string `json:"like"`
+		Env    string   `json:"env"`
+		Judged bool     `json:"judged"`
+		Want   string   `json:"want"`
+		Builds bool     `json:"builds"`
+		Amb    int      `json:"amb"`
 	}
 	many := 32
 	if e.Tier == "thorough" {
 		many = 96
 	}
-	cases := []osr{
-		{"arch", "ID=arch\n", 4},
-		{"debian", "ID=debian\nVERSION_ID=\"12\"\n", 4},
-		{"ubuntu", "ID=ubuntu\nID_LIKE=debian\n", 8},
-		{"neon", "ID=neon\nID_LIKE=\"ubuntu debian\"\n", many},
-		{"tumbleweed", "ID=\"opensuse-tumbleweed\"\nID_LIKE=\"opensuse suse\"\n", many},
-		{"kali", "ID=kali\nID_LIKE=debian\n", 8},
-		{"manjaro", "ID=manjaro\nID_LIKE=arch\n", 8},
-		{"mint", "ID=linuxmint\nID_LIKE=\"ubuntu debian\"\n", many},
-		{"unknown", "ID=void\n", 4},
-	}
 	recs := []any{}
 	total := 0
-	for _, c := range cases {
-		f := filepath.Join(e.Scratch, "osr-"+c.name)
-		if err := os.WriteFile(f, []byte(c.text), 0o644); err != nil {
+	for bi, p := range res.PrintsWithPrefix("BEHD") {
+		var b beh
+		if json.Unmarshal([]byte(p), &b) != nil || !b.Judged {
+			continue
+		}
+		runs := 2
+		switch {
+		case b.Env != "":
+			if e.Tier != "thorough" && (bi+int(e.Seed))%6 != 0 {
+				continue
+			}
+			runs = 1
+		case b.Amb >= 2:
+			runs = many
+		}
+		text := ""
+		if b.ID != "" {
+			text += "ID=" + b.ID + "\n"
+		}
+		if len(b.Like) == 1 {
+			text += "ID_LIKE=" + b.Like[0] + "\n"
+		} else if len(b.Like) > 1 {
+			text += "ID_LIKE=\"" + strings.Join(b.Like, " ") + "\"\n"
+		}
+		name := fmt.Sprintf("%s~%s~%s", b.ID, strings.Join(b.Like, "+"), b.Env)
+		f := filepath.Join(e.Scratch, fmt.Sprintf("osr-%d", bi))
+		if err := os.WriteFile(f, []byte(text), 0o644); err != nil {
 			return nil, 0, err.Error()
 		}
-		outcomes := make([]string, c.runs)
-		parallel(c.runs, 8, func(i int) {
-			b := e.RunPrebuild(Cfg{"-", 4, "4.1", "complain", false}, BuildOpts{Src: mini, Tag: fmt.Sprint("osr", c.name, i), NoCache: true, OSRelease: f})
-			defer b.Drop()
-			last := ""
-			if ls := strings.Split(strings.TrimSpace(b.Stdout), "\n"); len(ls) > 0 {
-				last = ls[len(ls)-1]
-			}
-			if b.Err != nil {
-				outcomes[i] = "failed: " + last
+		outcomes := make([]string, runs)
+		parallel(runs, 8, func(i int) {
+			bd := e.RunPrebuild(Cfg{"-", 4, "4.1", "complain", false}, BuildOpts{Src: mini, Tag: fmt.Sprint("osr", bi, "-", i), NoCache: true, OSRelease: f, EnvDist: b.Env})
+			defer bd.Drop()
+			if bd.Err != nil {
+				if m := reUnsupported.FindStringSubmatch(reANSI.ReplaceAllString(bd.Stdout, "")); m != nil {
+					outcomes[i] = "unsupported:" + m[1]
+				} else {
+					outcomes[i] = "failed: " + tail(strings.TrimSpace(bd.Stdout), 80)
+				}
 				return
 			}
-			h := hashTree(b.Out)
+			gone := []string{}
+			for _, d := range Dists {
+				if _, err := os.Stat(filepath.Join(bd.Out, "apparmor.d", "vdist-"+d)); err != nil {
+					gone = append(gone, d)
+				}
+			}
+			h := hashTree(bd.Out)
 			ks := []string{}
 			for k, v := range h {
 				ks = append(ks, k+"="+v)
 			}
 			sort.Strings(ks)
-			outcomes[i] = "built: " + shaS(strings.Join(ks, "\n"))
+			outcomes[i] = "built:" + strings.Join(gone, ",") + " " + shaS(strings.Join(ks, "\n"))
 		})
-		total += c.runs
-		for i := 1; i < c.runs; i++ {
-			recs = append(recs, map[string]any{"ev": "same", "id": fmt.Sprintf("detect|%s|run%d", c.name, i), "what": "two runs without $DISTRIBUTION on a host with the same os-release (" + strings.ReplaceAll(strings.TrimSpace(c.text), "\n", " ") + ") end differently", "a": outcomes[0], "b": outcomes[i]})
+		total += runs
+		want := "unsupported:" + b.Want
+		if b.Builds {
+			want = "built:" + b.Want + " "
+		}
+		if !strings.HasPrefix(outcomes[0], want) && len(r.Drift) < 10 {
+			r.Drift = append(r.Drift, fmt.Sprintf("Detect: os-release %q env %q: the model expects %q, the real run ends with %q", strings.ReplaceAll(strings.TrimSpace(text), "\n", " "), b.Env, want, outcomes[0]))
+		}
+		for i := 1; i < runs; i++ {
+			recs = append(recs, map[string]any{"ev": "same", "id": fmt.Sprintf("detect|%s|run%d", name, i), "what": "two runs without $DISTRIBUTION on a host with the same os-release (" + strings.ReplaceAll(strings.TrimSpace(text), "\n", " ") + ") end differently", "a": outcomes[0], "b": outcomes[i]})
 		}
 	}
 	return recs, total, ""
